@@ -16,21 +16,22 @@ import (
 // still succeed) and PeerClose (reads and writes fail) are separate.  Every
 // method records its event under the recorder's lock.
 type sconn struct {
-	mu       sync.Mutex
-	cond     *sync.Cond
-	id       int
-	rec      *Recorder
-	chunks   [][]byte
-	eof      bool // client half-closed
-	reset    bool // client fully closed
-	closed   bool // server called Close
-	blocked  bool // server is parked in Read
-	written  int
-	wfailAt  int // fail writes once this many bytes were written (-1: never)
-	wbuf     []byte
-	nblocks  int
-	returned bool
-	slow     bool // Write takes its time before it looks at the bytes (a slow socket): the caller's buffer must stay untouched meanwhile
+	mu        sync.Mutex
+	cond      *sync.Cond
+	id        int
+	rec       *Recorder
+	chunks    [][]byte
+	eof       bool // client half-closed
+	reset     bool // client fully closed
+	closed    bool // server called Close
+	blocked   bool // server is parked in Read
+	written   int
+	wfailAt   int // fail writes once this many bytes were written (-1: never)
+	wbuf      []byte
+	nblocks   int
+	returned  bool
+	closeFail bool // Close closes and then reports an error
+	slow      bool // Write takes its time before it looks at the bytes (a slow socket): the caller's buffer must stay untouched meanwhile
 }
 
 type sAddr string
@@ -108,6 +109,9 @@ func (c *sconn) Close() error {
 	c.closed = true
 	c.rec.Emit(Ev{"ev": "close", "c": c.id})
 	c.cond.Broadcast()
+	if c.closeFail {
+		return errors.New("tls: failed to send closeNotify alert (but connection was closed anyway)")
+	}
 	return nil
 }
 
